@@ -2,6 +2,6 @@ SPECIFICATION Spec
 CONSTANTS
   Pats <- MCPats
   Extras <- MCExtras
-  Paths <- MCPaths
-INVARIANTS PrefixReachesMux ExtraKept
+  Paths <- MCReqs
+INVARIANTS PrefixReachesMux ExtraKept QualifiedExtraIsNarrow
 CHECK_DEADLOCK FALSE
